@@ -90,6 +90,10 @@ inductive Skel
   | binderT (b : Nat) (x : List Nat) (ty : Ty) (body : Skel)
   /-- `{m..n}`: the interval literal (`nat_interval m n`) -/
   | interval (a b : Skel)
+  /-- `{x. body}`: set comprehension (`collect (%x. body)`) -/
+  | collect (x : List Nat) (body : Skel)
+  /-- `{x::T. body}`: set comprehension with the type of the bound variable shown -/
+  | collectT (x : List Nat) (ty : Ty) (body : Skel)
   deriving DecidableEq, Repr, Inhabited
 
 /-! ### Printer -/
@@ -115,6 +119,8 @@ def Skel.cls : Skel → Cls
   | .ann _ _ => .atom
   | .binderT _ _ _ _ => .opn
   | .interval _ _ => .app
+  | .collect _ _ => .app
+  | .collectT _ _ _ => .app
 
 def Table.row (T : Table) (o : Nat) : OpRow := T.ops.getD o default
 
@@ -181,6 +187,8 @@ def printSkel (T : Table) (L : Ladder) (uni : Bool) : Skel → List Tok
   | .ann t ty => .lp :: (printSkel T L uni t ++ .sym L.dcolon :: (printTy L.ty uni ty ++ [.rp]))
   | .binderT b x ty body => .sym (binderSpell T L uni b) :: .id x :: .sym L.dcolon :: (printTy L.ty uni ty ++ .dot :: printSkel T L uni body)
   | .interval a b => .sym L.lbrace :: (printSkel T L uni a ++ .sym L.dotdot :: (printSkel T L uni b ++ [.sym L.rbrace]))
+  | .collect x body => .sym L.lbrace :: .id x :: .dot :: (printSkel T L uni body ++ [.sym L.rbrace])
+  | .collectT x ty body => .sym L.lbrace :: .id x :: .sym L.dcolon :: (printTy L.ty uni ty ++ .dot :: (printSkel T L uni body ++ [.sym L.rbrace]))
 
 /-! ### Parser -/
 
@@ -244,7 +252,9 @@ def atomP' (L : Ladder) (self : Nat → List Tok → PRes) : List Tok → PRes
     else none
   | _ => none
 
-/-- after "{": term ".." term "}"  (rule `nat_interval`; set literals and comprehension are not modelled) -/
+/-- after "{": term ".." term "}" (rule `nat_interval`), CNAME ". " term "}" (`collect_set_notype`),
+CNAME "::" type ". " term "}" (`collect_set`); set literals are not modelled.  One term is read first; what
+follows it decides (on printed texts this is what the LALR parser does with one token of lookahead). -/
 def braceP (L : Ladder) (self : Nat → List Tok → PRes) (r : List Tok) : PRes :=
   match self 0 r with
   | some (a, .sym d :: r1) =>
@@ -252,7 +262,18 @@ def braceP (L : Ladder) (self : Nat → List Tok → PRes) (r : List Tok) : PRes
       match self 0 r1 with
       | some (b, .sym e :: r2) => if e = L.rbrace then some (.interval a b, r2) else none
       | _ => none
+    else if d = L.dcolon then
+      match a, parseTyAt L.ty (r1.length + 1) r1 with
+      | .atom x, some (ty, .dot :: r2) =>
+        match self 0 r2 with
+        | some (body, .sym e :: r3) => if e = L.rbrace then some (.collectT x ty body, r3) else none
+        | _ => none
+      | _, _ => none
     else none
+  | some (.atom x, .dot :: r1) =>
+    match self 0 r1 with
+    | some (body, .sym e :: r2) => if e = L.rbrace then some (.collect x body, r2) else none
+    | _ => none
   | _ => none
 
 /-- rule `atom` -/
@@ -452,7 +473,7 @@ abbrev LadderOK (T : Table) (L : Ladder) : Prop :=
    -- `::` is no operator symbol and no binder spelling; the type symbols are distinct
    (L.binderIdx L.dcolon = none ∧ (∀ j < L.n, (L.at j).has L.dcolon = false) ∧ L.ty.ok) ∧
    -- `{`, `..`, `}` are no operator symbols and no binder spellings
-   (∀ s ∈ [L.lbrace, L.dotdot, L.rbrace], L.binderIdx s = none ∧ ∀ j < L.n, (L.at j).has s = false))
+   ((∀ s ∈ [L.lbrace, L.dotdot, L.rbrace], L.binderIdx s = none ∧ ∀ j < L.n, (L.at j).has s = false) ∧ L.dcolon ≠ L.dotdot))
 
 /-- every bracket the printer omits is one the grammar does not need; spellings agree -/
 abbrev TableConsistent (T : Table) (L : Ladder) : Prop :=
@@ -469,5 +490,7 @@ def Skel.WF (T : Table) (L : Ladder) : Skel → Prop
   | .ann t _ => t.WF T L
   | .binderT b _ _ body => b < L.binders.length ∧ body.WF T L
   | .interval a b => a.WF T L ∧ b.WF T L
+  | .collect _ body => body.WF T L
+  | .collectT _ _ body => body.WF T L
 
 end Holpy.C07
